@@ -211,9 +211,12 @@ Lemma frame_del_sample d s u e e' :
   Inv s -> is_live s u -> e < nech s -> remap_sample (DelSample d) (nech s) e = Some e' ->
   get_cell (del_sample d s) e' u = get_cell s e u.
 Proof.
-  intros H [c Hc] He Hr. unfold del_sample. simpl in Hr.
+  intros H [c Hc] He Hr. unfold del_sample. unfold remap_sample, remap_dels in Hr.
   destruct (zidx d (nech s)) as [d'|] eqn:Ed.
   2:{ inversion Hr; subst; auto. }
+  assert (Hr' : (if e <? d' then Some e else if Nat.eqb e d' then None else Some (e - 1)) = Some e').
+  { destruct (Nat.eqb e d') eqn:E0; try discriminate. destruct (e <? d'); exact Hr. }
+  clear Hr. rename Hr' into Hr.
   apply zidx_some in Ed. destruct Ed as [Ed _].
   pose proof (col_of_uid_bound s H u c (proj2 (col_of_uid_some s u c) Hc)) as Hb.
   unfold get_cell, col_of_uid. simpl. rewrite Hc.
@@ -228,6 +231,113 @@ Proof.
     rewrite (proj2 (Nat.ltb_lt _ _)) by lia.
     replace (e - 1 <? d') with false by (symmetry; apply Nat.ltb_ge; lia).
     replace (S (e - 1)) with e by lia. reflexivity.
+Qed.
+
+(* ------------------------------------------------------------------ new editors *)
+Lemma is_live_del_sample d s u : is_live (del_sample d s) u <-> is_live s u.
+Proof. unfold del_sample. destruct (zidx d (nech s)); simpl; tauto. Qed.
+Lemma nech_del_sample d s d' : zidx d (nech s) = Some d' -> nech (del_sample d s) = nech s - 1.
+Proof. intro E. unfold del_sample. now rewrite E. Qed.
+Lemma frame_del_samples_loop es : forall s e e' u,
+  Inv s -> is_live s u -> e < nech s -> remap_dels es (nech s) e = Some e' ->
+  get_cell (del_samples_loop es s) e' u = get_cell s e u.
+Proof.
+  induction es as [|d r IH]; intros s e e' u H Hu He Hr; simpl in *.
+  - now inversion Hr.
+  - destruct (zidx d (nech s)) as [d'|] eqn:Ed; [|now inversion Hr].
+    destruct (Nat.eqb e d') eqn:E0; try discriminate. apply Nat.eqb_neq in E0.
+    pose proof (zidx_some _ _ _ Ed) as [Hd _].
+    set (e1 := if e <? d' then e else e - 1) in *.
+    transitivity (get_cell (del_sample d s) e1 u).
+    + apply IH; auto.
+      * now apply del_sample_inv.
+      * now apply is_live_del_sample.
+      * rewrite (nech_del_sample _ _ _ Ed). unfold e1. destruct (e <? d') eqn:E1.
+        apply Nat.ltb_lt in E1; lia. apply Nat.ltb_ge in E1; lia.
+      * now rewrite (nech_del_sample _ _ _ Ed).
+    + apply frame_del_sample; auto. unfold remap_sample, remap_dels. rewrite Ed.
+      replace (Nat.eqb e d') with false by (symmetry; now apply Nat.eqb_neq). reflexivity.
+Qed.
+(* a write designated by column index leaves the other columns and the other samples alone *)
+Lemma get_cell_set_cell_col s e0 c v e u c' :
+  Inv s -> zidx c (ncol s) = Some c' -> (col_of_uid s u <> Some c' \/ Z.of_nat e <> e0) ->
+  get_cell (set_cell_col e0 c v s) e u = get_cell s e u.
+Proof.
+  intros H Ec Hp. unfold set_cell_col. rewrite Ec. destruct (zidx e0 (nech s)) as [e0'|] eqn:Ee; auto.
+  apply zidx_some in Ee. destruct Ee as [_ ->]. apply zidx_some in Ec. destruct Ec as [Ec _].
+  unfold get_cell. simpl.
+  change (col_of_uid (with_arr s (set_nth c' (set_nth e0' v (nth c' (arr s) [])) (arr s))) u) with (col_of_uid s u).
+  destruct (col_of_uid s u) as [cu|] eqn:Ecu; auto.
+  destruct ((cu <? ncol s) && (e <? nech s)); auto.
+  destruct (Nat.eq_dec cu c') as [->|Hne].
+  - destruct H as [[Ha _] _]. rewrite nth_set_nth_eq by lia. rewrite nth_set_nth_neq; auto.
+    destruct Hp as [Hp|Hp]; [congruence | intro; subst; congruence].
+  - now rewrite nth_set_nth_neq.
+Qed.
+Lemma set_cell_col_same e0 c v s :
+  uidcol (set_cell_col e0 c v s) = uidcol s /\ ncol (set_cell_col e0 c v s) = ncol s /\
+  nech (set_cell_col e0 c v s) = nech s.
+Proof. unfold set_cell_col. destruct (zidx c (ncol s)); destruct (zidx e0 (nech s)); repeat split. Qed.
+Lemma set_col_col_loop_frame es c c' : forall lec sel tab s e u,
+  Inv s -> zidx c (ncol s) = Some c' -> col_of_uid s u <> Some c' ->
+  get_cell (set_col_col_loop es lec sel tab c s) e u = get_cell s e u.
+Proof.
+  induction es as [|e0 r IH]; intros lec sel tab s e u H Ec Hne; simpl; auto.
+  assert (Step : forall v lec', get_cell (set_col_col_loop r lec' sel tab c (set_cell_col (Z.of_nat e0) c v s)) e u
+                                = get_cell s e u).
+  { intros v lec'. destruct (set_cell_col_same (Z.of_nat e0) c v s) as [E1 [E2 E3]].
+    rewrite IH.
+    - apply get_cell_set_cell_col with (c' := c'); auto.
+    - now apply set_cell_col_inv.
+    - now rewrite E2.
+    - unfold col_of_uid in *. now rewrite E1. }
+  destruct (match sel with [] => true | _ => sel_on (nth e0 sel None) end); apply Step.
+Qed.
+Lemma keeps_set_col_uid_loop g es u0 : forall lec sel tab s,
+  Inv s -> keeps g (fun u _ => Z.of_nat u <> u0) s (set_col_uid_loop es lec sel tab u0 s).
+Proof.
+  induction es as [|e0 r IH]; intros lec sel tab s H; simpl. apply keeps_refl.
+  destruct (match sel with [] => true | _ => sel_on (nth e0 sel None) end); auto.
+  eapply keeps_trans; [|apply IH; now apply set_cell_inv].
+  eapply keeps_weaken; [|apply keeps_set_cell; auto]. simpl. auto.
+Qed.
+Lemma keeps_add_cols_gen tab radix t k us vi nv s :
+  Inv s -> add_ok t k s = 0%Z -> 0 < nech s ->
+  keeps true (fun _ _ => True) s (add_cols_gen tab radix t k us vi nv s).
+Proof.
+  intros H Hok Hne. unfold add_cols_gen. destruct tab as [|x tab']; [apply keeps_refl|].
+  set (tab := x :: tab') in *.
+  assert (E0 : set_nech0 (length tab / nv) s = s).
+  { unfold set_nech0. replace (Nat.eqb (nech s) 0) with false; auto. symmetry. apply Nat.eqb_neq. lia. }
+  rewrite E0. destruct (Nat.eqb _ 0); [apply keeps_refl|]. destruct (negb _); [apply keeps_refl|].
+  set (n := if us then n_active s else nech s). set (nvar := length tab / n).
+  set (s1 := add_cols (Z.of_nat nvar) vi radix t k 0 s).
+  assert (H1 : Inv s1) by (apply add_cols_inv; auto).
+  assert (K1 : keeps true (fun _ _ => True) s s1) by (apply keeps_add_cols; auto).
+  assert (K2 : forall l, keeps true (fun u _ => u < uidmax s) s1
+                 (fold_left (fun s0 ic => set_column_uid_sel (Z.of_nat (uidmax s + fst ic)) (snd ic) us s0) l s1)).
+  { intro l. apply keeps_fold; auto.
+    - intros; now apply set_column_uid_sel_inv.
+    - intros s0 ic Hs0. eapply keeps_weaken; [|apply keeps_set_col_uid_loop; auto]. simpl. intros u _ Hu. lia. }
+  specialize (K2 (combine (seq 0 nvar) (chunk n nvar tab))).
+  destruct K1 as [N1 [L1 C1]]. destruct K2 as [N2 [L2 C2]].
+  split; [congruence|split].
+  - intros u Hu. apply L2. now apply L1.
+  - intros u e Hu Hu' He _.
+    assert (Hu1 : is_live s1 u) by now apply L1.
+    transitivity (get_cell s1 e u).
+    + apply C2; auto. rewrite N1; auto. destruct Hu as [c Hc]. apply nth_error_Some. congruence.
+    + apply C1; auto.
+Qed.
+Lemma keeps_add_sel_common sel nm cmb s :
+  Inv s -> 0 < nech s -> keeps true (fun _ _ => True) s (add_sel_common sel nm cmb s).
+Proof. intros H Hne. unfold add_sel_common. apply keeps_add_cols_gen; auto. Qed.
+(* the uid of a column, from its index *)
+Lemma not_resolved s c c' u :
+  Inv s -> zidx c (ncol s) = Some c' -> Z.of_nat u <> oz (uid_of_col_z s c) -> col_of_uid s u <> Some c'.
+Proof.
+  intros H Ec Hne Hcu. apply Hne. unfold uid_of_col_z. rewrite Ec.
+  rewrite (proj2 (uid_of_col_iff s H c' u) Hcu). reflexivity.
 Qed.
 
 (* ------------------------------------------------------------------ C07_frame *)
@@ -279,11 +389,11 @@ Ltac kp g :=
   end.
 Lemma frame s o u e :
   Inv s -> accepted s o -> is_live s u -> is_live (step s o) u -> e < nech s ->
-  addressed o (Z.of_nat u) e = false ->
+  addressed (fun c => oz (uid_of_col_z s c)) o (Z.of_nat u) e = false ->
   forall e', remap_sample o (nech s) e = Some e' -> get_cell (step s o) e' u = get_cell s e u.
 Proof.
   intros H Hacc Hu Hu' He Hadr e' Hr. unfold accepted in Hacc.
-  destruct o; simpl in Hr; try (inversion Hr; subst e'; clear Hr); simpl step in *; simpl in Hadr; simpl in Hacc.
+  destruct o; try (simpl in Hr; inversion Hr; subst e'; clear Hr); simpl step in *; simpl in Hadr; simpl in Hacc.
   - kp true. apply keeps_add_cols; auto. lia.
   - kp true. apply keeps_add_cols_tab; auto. lia.
   - revert Hu'. unfold add_selection. destruct tab.
@@ -334,6 +444,30 @@ Proof.
   - revert Hu'. unfold del_uid_range. destruct (i_del <=? 0)%Z; auto. intro Hu'. kp false. now apply keeps_del_uids.
   - kp true. apply keeps_of_same_cells. apply same_cells_set_name_list.
   - kp true. apply keeps_of_same_cells. apply same_cells_set_name_loc.
+  - (* deleteSamples *) unfold del_samples. now apply frame_del_samples_loop.
+  - (* setColumnByUID *) apply (keeps_use true (fun u1 _ => Z.of_nat u1 <> u0) s _ u e); auto.
+    apply keeps_set_col_uid_loop; auto. now apply Z.eqb_neq in Hadr.
+  - (* setColumnByColIdx *) unfold set_column_col. destruct (zidx c (ncol s)) as [c'|] eqn:Ec; auto.
+    apply set_col_col_loop_frame with (c' := c'); auto. apply Z.eqb_neq in Hadr. eapply not_resolved; eauto.
+  - discriminate.
+  - (* setValueByColIdx *) destruct (zidx c (ncol s)) as [c'|] eqn:Ec.
+    + apply get_cell_set_cell_col with (c' := c'); auto.
+      apply andb_false_iff in Hadr. destruct Hadr as [Hadr|Hadr]; apply Z.eqb_neq in Hadr; auto.
+      left. eapply not_resolved; eauto.
+    + unfold set_cell_col. now rewrite Ec.
+  - (* setFromLocator *) unfold set_from_loc. destruct (zidx e0 (nech s)); auto.
+    destruct (col_of_loc s t k) as [c|] eqn:Ecl; auto.
+    assert (Hc : c < ncol s).
+    { unfold col_of_loc in Ecl. destruct (k <? length (loc s t)); try discriminate. eapply col_of_uid_bound; eauto. }
+    apply get_cell_set_cell_col with (c' := c); auto. now apply zidx_of_nat. right. now apply Z.eqb_neq in Hadr.
+  - (* addColumnsByVVD *) kp true. unfold add_cols_vvd. destruct (concat tabs) eqn:E.
+    + unfold add_cols_gen. apply keeps_refl.
+    + rewrite <- E. apply keeps_add_cols_gen; auto. lia.
+  - (* addSelection *) revert Hu'. unfold add_selection_c. destruct tab.
+    + intro Hu'. kp true. apply keeps_add_sel_common; auto. lia.
+    + destruct (negb _); auto. intro Hu'. kp true. apply keeps_add_sel_common; auto. lia.
+  - kp true. apply keeps_add_sel_common; auto. lia.
+  - kp true. apply keeps_add_sel_common; auto. lia.
 Qed.
 
 (* ------------------------------------------------------------------ post-condition of the role setters *)
